@@ -77,11 +77,11 @@ func registerReleaseLevelOption() {
 func updateReleaseLevel() {
 	// get value
 	value := releaseLevelOption.activeFallbackValue
-	if releaseLevelOption.activeValue != nil {
-		value = releaseLevelOption.activeValue
-	}
 	if releaseLevelOption.activeDefaultValue != nil {
 		value = releaseLevelOption.activeDefaultValue
+	}
+	if releaseLevelOption.activeValue != nil {
+		value = releaseLevelOption.activeValue
 	}
 	// set atomic value
 	switch value.stringVal {
